@@ -6,6 +6,7 @@
    storage are guarantees of Rust std that the model assumes (one call = one atomic step on the
    logger state; THREAD_LOCAL_TAGS is a per-thread map). *)
 From SV Require Import Base.Bytes Base.BytesP Spec.Json8259 Model.Json Model.Log Proofs.LogP.
+From SV Require Import Generated.SourceParams Tie.LogTie.
 From Coq Require Import ZArith Sorted.
 
 (* C18.1  The model (Vec::sort_by_key = stable insertion sort) refines the specification (the fixed
@@ -187,6 +188,11 @@ Example c18_nonvacuous :
     (ROk, [(DDefault, LDebug, [])]) ].
 Proof. vm_compute. split; reflexivity. Qed.
 
+(* C18.src  the sort key of log(), re-read from src/log/logger.rs ON THIS RUN, is the model's prio *)
+Theorem c18_source_priority_table :
+  forall name, prio name = prio_lookup name src_log_prio_table src_log_prio_default.
+Proof. exact log_prio_tie. Qed.
+
 Print Assumptions c18_refines_spec.
 Print Assumptions c18_one_event_per_call.
 Print Assumptions c18_other_calls_send_nothing.
@@ -208,3 +214,4 @@ Print Assumptions c18_oracle_sound.
 Print Assumptions c18_oracle_own_tags_sound.
 Print Assumptions c18_oracle_lines_sound.
 Print Assumptions c18_wf_preserved.
+Print Assumptions c18_source_priority_table.
